@@ -80,6 +80,7 @@ impl Env {
         }
         let restored: Result<T, String> = v.save(self.fmt).map_err(|e| format!("encode: {e}")).and_then(|b| {
             drop(v);
+            T::check_header(&b, self.fmt).map_err(|e| format!("header: {e}"))?;
             T::load(&b, self.fmt).map_err(|e| format!("decode: {e}"))
         });
         match restored {
@@ -105,6 +106,32 @@ impl Env {
 pub trait Persist: Sized {
     fn save(&self, fmt: Fmt) -> Result<Vec<u8>, String>;
     fn load(b: &[u8], fmt: Fmt) -> Result<Self, String>;
+    /// What was written must be readable by ANOTHER process of this ciphersuite (the one that resumes):
+    /// types with a serialization header must carry version 0 and this suite's identifier, computed here
+    /// independently (CRC-32 of the ID in the binary form, the ID string in JSON).
+    fn check_header(_b: &[u8], _fmt: Fmt) -> Result<(), String> {
+        Ok(())
+    }
+}
+fn hdr_check<C: Suite>(b: &[u8], fmt: Fmt) -> Result<(), String> {
+    match fmt {
+        Fmt::Postcard => {
+            let own = crate::corpus::crc32(C::ID.as_bytes()).to_be_bytes();
+            if b.len() < 5 || b[0] != 0 || b[1..5] != own {
+                return Err(format!("binary state starts with {} instead of version 0 + CRC-32 of '{}' ({}): a restarted process of this ciphersuite cannot read it", hex::encode(&b[..std::cmp::min(5, b.len())]), C::ID, hex::encode(own)));
+            }
+            Ok(())
+        }
+        Fmt::Json => {
+            let v: serde_json::Value = serde_json::from_slice(b).map_err(es)?;
+            let h = &v["header"];
+            if h["version"] != serde_json::json!(0) || h["ciphersuite"] != serde_json::json!(C::ID) {
+                return Err(format!("JSON state carries header {h} instead of version 0 / '{}'", C::ID));
+            }
+            Ok(())
+        }
+        Fmt::Fields => Ok(()),
+    }
 }
 fn es<E: std::fmt::Debug>(e: E) -> String {
     format!("{e:?}")
@@ -132,6 +159,10 @@ fn u16f(b: &[u8]) -> Result<u16, String> {
 macro_rules! persist_own {
     ($ty:ty) => {
         impl<C: Suite> Persist for $ty {
+            fn check_header(b: &[u8], fmt: Fmt) -> Result<(), String> {
+                // own serialize() is used for Postcard AND Fields here
+                hdr_check::<C>(b, if fmt == Fmt::Fields { Fmt::Postcard } else { fmt })
+            }
             fn save(&self, fmt: Fmt) -> Result<Vec<u8>, String> {
                 match fmt {
                     Fmt::Json => serde_json::to_vec(self).map_err(es),
@@ -153,6 +184,7 @@ persist_own!(SigningCommitments<C>);
 persist_own!(SigningPackage<C>);
 
 impl<C: Suite> Persist for d1::SecretPackage<C> {
+    // (the DKG secret packages are stored without a serialization header)
     fn save(&self, fmt: Fmt) -> Result<Vec<u8>, String> {
         match fmt {
             Fmt::Json => serde_json::to_vec(self).map_err(es),
@@ -183,6 +215,7 @@ impl<C: Suite> Persist for d1::SecretPackage<C> {
     }
 }
 impl<C: Suite> Persist for d2::SecretPackage<C> {
+    // (the DKG secret packages are stored without a serialization header)
     fn save(&self, fmt: Fmt) -> Result<Vec<u8>, String> {
         match fmt {
             Fmt::Json => serde_json::to_vec(self).map_err(es),
@@ -208,6 +241,9 @@ impl<C: Suite> Persist for d2::SecretPackage<C> {
     }
 }
 impl<C: Suite> Persist for SecretShare<C> {
+    fn check_header(b: &[u8], fmt: Fmt) -> Result<(), String> {
+        hdr_check::<C>(b, fmt)
+    }
     fn save(&self, fmt: Fmt) -> Result<Vec<u8>, String> {
         match fmt {
             Fmt::Json => serde_json::to_vec(self).map_err(es),
@@ -231,6 +267,9 @@ impl<C: Suite> Persist for SecretShare<C> {
     }
 }
 impl<C: Suite> Persist for KeyPackage<C> {
+    fn check_header(b: &[u8], fmt: Fmt) -> Result<(), String> {
+        hdr_check::<C>(b, fmt)
+    }
     fn save(&self, fmt: Fmt) -> Result<Vec<u8>, String> {
         match fmt {
             Fmt::Json => serde_json::to_vec(self).map_err(es),
@@ -256,6 +295,9 @@ impl<C: Suite> Persist for KeyPackage<C> {
     }
 }
 impl<C: Suite> Persist for PublicKeyPackage<C> {
+    fn check_header(b: &[u8], fmt: Fmt) -> Result<(), String> {
+        hdr_check::<C>(b, fmt)
+    }
     fn save(&self, fmt: Fmt) -> Result<Vec<u8>, String> {
         match fmt {
             Fmt::Json => serde_json::to_vec(self).map_err(es),
@@ -289,6 +331,9 @@ impl<C: Suite> Persist for PublicKeyPackage<C> {
     }
 }
 impl<C: Suite> Persist for SigningNonces<C> {
+    fn check_header(b: &[u8], fmt: Fmt) -> Result<(), String> {
+        hdr_check::<C>(b, fmt)
+    }
     fn save(&self, fmt: Fmt) -> Result<Vec<u8>, String> {
         match fmt {
             Fmt::Json => serde_json::to_vec(self).map_err(es),
@@ -329,6 +374,9 @@ macro_rules! persist_scalar {
 persist_scalar!(Delta<C>);
 persist_scalar!(Sigma<C>);
 impl<C: Suite> Persist for SignatureShare<C> {
+    fn check_header(b: &[u8], fmt: Fmt) -> Result<(), String> {
+        hdr_check::<C>(b, fmt)
+    }
     fn save(&self, fmt: Fmt) -> Result<Vec<u8>, String> {
         match fmt {
             Fmt::Json => serde_json::to_vec(self).map_err(es),
@@ -531,8 +579,8 @@ fn run_proto<C: Suite>(env: &mut Env, proto: Proto, n: u16, t: u16, seed: &str) 
             env.out("signature".to_string(), &sig);
             Ok(())
         }
-        Proto::LargeDkgPart2 => large_part2::<C>(env, false, seed),
-        Proto::LargeRefreshPart2 => large_part2::<C>(env, true, seed),
+        Proto::LargeDkgPart2 => large_part2::<C>(env, false, seed, n),
+        Proto::LargeRefreshPart2 => large_part2::<C>(env, true, seed, n),
         Proto::RepairThenSign => {
             let g = make_group::<C>(KeySrc::Dealer, n, t, IdKind::U16x, seed)?;
             let lost = g.ids[0];
@@ -570,8 +618,7 @@ fn run_proto<C: Suite>(env: &mut Env, proto: Proto, n: u16, t: u16, seed: &str) 
     }
 }
 
-fn large_part2<C: Suite>(env: &mut Env, refresh: bool, seed: &str) -> Result<(), String> {
-    let n = 72u16;
+fn large_part2<C: Suite>(env: &mut Env, refresh: bool, seed: &str, n: u16) -> Result<(), String> {
     let ids: Vec<Id<C>> = (1..=n).map(|i| Identifier::<C>::try_from(i).unwrap()).collect();
     let mut p1 = BTreeMap::new();
     let mut mine = None;
@@ -611,7 +658,7 @@ impl Prop for C13 {
         "model_checking"
     }
     fn rule(&self) -> String {
-        "crash-point enumeration on the real code: 7 protocols (DKG, distributed refresh, dealer refresh, preprocessed signing, repair, each followed by a signing run; and part two of a 72-of-72 DKG / distributed refresh whose secret package is several kilobytes) x suites x shapes x {the types' own postcard serialize/deserialize, JSON, component-wise custom serialization through getters + serialize_whole + new()}; a boundary = a point where a participant holds state between calls (round-1/2 secret packages, key/public packages, nonces, nonce batches) or a message is in transit; a mask selects boundaries at which the value is encoded, dropped and the decoded copy used from then on. Enumerated: every mask with <= 2 crashes (quick) / every mask over the secret-state boundaries x {no, all} transit (thorough), and the all-ones mask. Oracle: every later step accepts the restored state and EVERY output (packages, key material, shares, signature) is byte-identical to the uninterrupted run. states = (protocol, mask) executions; transitions = boundaries crossed; traces = complete resumed runs compared".into()
+        "crash-point enumeration on the real code: 7 protocols (DKG, distributed refresh, dealer refresh, preprocessed signing, repair, each followed by a signing run; and part two of a 72-of-72 and a 260-of-260 DKG / distributed refresh whose secret packages are several / more than 16 kilobytes); whatever is written must carry version 0 and this suite's identifier (computed independently) so that a restarted process can read it; x suites x shapes x {the types' own postcard serialize/deserialize, JSON, component-wise custom serialization through getters + serialize_whole + new()}; a boundary = a point where a participant holds state between calls (round-1/2 secret packages, key/public packages, nonces, nonce batches) or a message is in transit; a mask selects boundaries at which the value is encoded, dropped and the decoded copy used from then on. Enumerated: every mask with <= 2 crashes (quick) / every mask over the secret-state boundaries x {no, all} transit (thorough), and the all-ones mask. Oracle: every later step accepts the restored state and EVERY output (packages, key material, shares, signature) is byte-identical to the uninterrupted run. states = (protocol, mask) executions; transitions = boundaries crossed; traces = complete resumed runs compared".into()
     }
     fn assumptions(&self) -> Vec<String> {
         vec!["random sources are scripted per (participant, step), so the resumed and the uninterrupted run draw the same bytes".into()]
@@ -683,6 +730,17 @@ impl Prop for C13 {
                 for fmt in [Fmt::Postcard, Fmt::Json, Fmt::Fields] {
                     for m in [vec![], vec![0], vec![1], vec![2], vec![0, 1, 2]] {
                         out.push(serde_json::to_value(Case { suite: suite.to_string(), proto, n: 72, t: 72, fmt, crashes: m, seed: format!("s{seed}") }).unwrap());
+                    }
+                }
+            }
+        }
+        // thresholds above 255: the round-one secret package of a 260-of-260 run is > 16 kB
+        for proto in [Proto::LargeDkgPart2, Proto::LargeRefreshPart2] {
+            for suite in if tier == Tier::Thorough { vec!["ed25519", "p256", "secp256k1-tr", "ed448"] } else { vec!["ed25519"] } {
+                let big = if suite == "ed448" { 150u16 } else { 260u16 };
+                for fmt in [Fmt::Postcard, Fmt::Json, Fmt::Fields] {
+                    for m in [vec![], vec![0], vec![0, 1, 2]] {
+                        out.push(serde_json::to_value(Case { suite: suite.to_string(), proto, n: big, t: big, fmt, crashes: m, seed: format!("s{seed}") }).unwrap());
                     }
                 }
             }
